@@ -101,7 +101,8 @@ def evaluate(ctx, sc, d):
             if b1["trimmed"] != b2["trimmed"]:
                 viol("pair-adapters-one-mate", f"pair {key}: R1 match {b1['adapter']}, R2 match {b2['adapter']}")
             elif b1["trimmed"]:
-                if b1["adapter"][2:] != b2["adapter"][2:]:
+                n1, n2 = [a["name"] for a in sc.ads1], [a["name"] for a in sc.ads2]
+                if b1["adapter"] not in n1 or b2["adapter"] not in n2 or n1.index(b1["adapter"]) != n2.index(b2["adapter"]):
                     viol("pair-adapters-rank", f"pair {key}: R1 trimmed by {b1['adapter']}, R2 by {b2['adapter']} (different rank)")
             elif key in pre1 and key in pre2:
                 if (b1["seq"], b2["seq"]) != (pre1[key][1], pre2[key][1]):
@@ -114,7 +115,7 @@ def one_case(ctx, k):
     os.makedirs(d, exist_ok=True)
     try:
         demux = rng.choice([None, None, None, None, "normal", "combinatorial"]) if ctx.tier == "thorough" or k % 3 == 0 else None
-        sc = F.observe(ctx, rng, d, dict(demux=demux, trace=False, paired_p=1.0, interleaved_p=0.25, mixed_layout_p=0.25, revcomp_p=0.15))
+        sc = F.observe(ctx, rng, d, dict(demux=demux, trace=False, paired_p=1.0, interleaved_p=0.25, mixed_layout_p=0.25, revcomp_p=0.15, unknown_name_p=0.12 if demux else 0.0))
         if sc is None:
             return
         sc.case["k"] = k
